@@ -1,6 +1,6 @@
 from vlib import Harness, NCPU
 
-SRC = ["harness/c04_main.cpp"] + ["harness/c04_p%d.cpp" % i for i in range(6)]
+SRC = ["harness/c04_main.cpp"] + ["harness/c04_p%d.cpp" % i for i in range(7)]
 
 
 def plan(tier):
@@ -16,7 +16,7 @@ def plan(tier):
                  (ha, ["--tier", tier, "mode=schedules", "--deadline", dl], NCPU),
                  (ht, ["--tier", tier, "mode=schedules", "--deadline", dl], NCPU)],
         "rule": "inputs: every sequence of <=4 (quick) / <=5 (thorough) strings over {a,b,'',ab,aa,ba,bb} plus all-equal / long-common-prefix / duplicate-heavy / "
-                "prefix-chain / high-byte families of sizes 6..40, x workers {1,2,3} x 6 tiny-threshold parameter sets (TreeBits 1-2, smallsort 4/8, inssort 2/3, "
+                "prefix-chain / high-byte families of sizes 6..40, x workers {1,2,3} x 7 tiny-threshold parameter sets (TreeBits 1-2, smallsort 4/8, inssort 2/3, "
                 "work sharing on/off, rest_size on/off, 32/64-bit keys) x with/without LCP x {C strings, std::string} x sampler seed, each run of the real "
                 "parallel_sample_sort_params<P> on the scheduler's deterministic default schedule (ASan; TSan on a reduced product); schedules: 9 drivers x "
                 "with/without LCP under every interleaving within the delay bound (1 quick / 2 thorough), ASan and TSan builds. states = distinct cases + distinct schedules",
